@@ -23,7 +23,8 @@ from zoo import meshes as Z
 PROPERTY = "C15"
 
 OPS = ["solve_a", "solve_b", "save", "folder0", "folderA", "folderB", "set0", "setlast", "get0", "res0", "replacemesh", "saveload"]
-PREFIXES = {"mem": ["solve_a", "save"], "disk": ["folderA", "solve_a", "save"], "two": ["solve_a", "save", "solve_b", "save"]}
+PREFIXES = {"mem": ["solve_a", "save"], "disk": ["folderA", "solve_a", "save"], "two": ["solve_a", "save", "solve_b", "save"],
+            "twomesh": ["solve_a", "save", "replacemesh", "solve_b", "save"]}
 
 MESHES = {
     "Q": lambda: Z.template_2d("QUAD4", [3, 2]),
@@ -282,6 +283,8 @@ def cases(tier, seed):
     depth = 2 if tier == "quick" else 3
     for name in SCENARIOS:
         for pre in PREFIXES:
+            if any(o in getattr(SCENARIOS[name], "skip_ops", ()) for o in PREFIXES[pre]):
+                continue
             for d in range(1, depth + 1):
                 for seq in itertools.product(OPS, repeat=d):
                     if any(o in getattr(SCENARIOS[name], "skip_ops", ()) for o in seq):
@@ -293,7 +296,7 @@ def cases(tier, seed):
 def describe(tier, seed):
     depth = 2 if tier == "quick" else 3
     return {
-        "rule": f"E2 unmerged: 10 simulation scenarios x 3 prefixes (iteration 0 kept in memory / written to disk / two stored iterations) x every sequence of the {len(OPS)} operations "
+        "rule": f"E2 unmerged: 10 simulation scenarios x 4 prefixes (iteration 0 kept in memory / written to disk / two stored iterations / two iterations on two meshes) x every sequence of the {len(OPS)} operations "
                 f"of length 1..{depth}; after every operation: every stored iteration still equals the snapshot taken when it was saved, reading a stored iteration "
                 "leaves the live state and the count unchanged, a restore brings back the fields, mesh and internal variables of the snapshot, "
                 "Result(name, iter=0) equals the value recorded at save time, Load_Simu(Save()) has the same mesh, tags, count and stored iterations. "
@@ -370,9 +373,12 @@ def _run(case, scn, tmp):
         for i, s in enumerate(snaps):
             try:
                 r = simu.Get_results(i)
+                rneg = simu.Get_results(i - len(snaps))  # the same entry addressed from the end
             except Exception as err:
                 out.append(viol("stored_unreadable", f"{where}: Get_results({i}) raised {type(err).__name__}: {err}", **kk))
                 continue
+            if not _eq(_strip(rneg), _strip(r)):
+                out.append(viol("stored_negative_index", f"{where}: Get_results({i - len(snaps)}) differs from Get_results({i})", **kk))
             if not _eq(_strip(r), _strip(s["stored"])):
                 bad = [k for k in s["stored"] if k in r and not _eq(r[k], s["stored"][k])] + [k for k in set(r) ^ set(s["stored"])]
                 out.append(viol("stored_changed", f"{where}: stored iteration {i} differs from what was stored when it was saved (keys {bad[:4]})",
@@ -399,7 +405,7 @@ def _run(case, scn, tmp):
             if not snaps:
                 return out
             i = 0 if op == "set0" else len(snaps) - 1
-            simu.Set_Iter(i)
+            simu.Set_Iter(0 if op == "set0" else -1)  # the last iteration is addressed the default way (-1)
             nrestore += 1
             s = snaps[i]
             key = s["mesh"]
